@@ -7,7 +7,7 @@
    earlier versions of the code (kept for the refuted statements).  Single promise: Join is not
    in this model. *)
 From CV Require Import Promise.Promise Promise.PromiseProofs Promise.PromiseStepProofs Promise.MuProofs
-  Promise.PromiseTheorems Promise.PromiseLive Promise.PromiseProxies Promise.PromiseJoin Promise.PromiseJoinProofs Promise.PromiseJoinThms Promise.PromiseJoinInv Promise.PromiseJoinRefs.
+  Promise.PromiseTheorems Promise.PromiseLive Promise.PromiseProxies Promise.PromiseJoin Promise.PromiseJoinProofs Promise.PromiseJoinThms Promise.PromiseJoinInv Promise.PromiseJoinRefs Promise.PromiseJoinForest Promise.PromiseJoinDest Promise.PromiseJoinChain.
 Open Scope Z_scope.
 
 (* the promise resolves at most once; Fulfill/Reject after the first one panics (OPanic), the
@@ -227,3 +227,64 @@ Theorem C11_join_refs_count : forall v np ops c, jv_refs_sum v = true -> jreach 
   pm_refs (proms c) = pm_unreleased (proms c) + jcount owes (jthreads c).
 Proof. exact join_refs_count. Qed.
 Print Assumptions C11_join_refs_count.
+
+(* ---- round 6: the forest, the Join precondition, mutex deadlock freedom, destinations on chains *)
+
+(* Precondition of Join (join_ordered): a promise only joins promises of lower index (never itself, never a promise
+   that is or will be joined to it).  Under it every next edge goes to a lower index: joined promises form a forest
+   whose chains end in a promise that is not joined. *)
+Theorem C11_join_forest : forall v np ops c, join_ordered ops -> jreach v np ops c ->
+  (forall k q, p_next (getp c k) = Some q -> (q < k)%nat) /\
+  (forall t th, nth_error (jthreads c) t = Some th -> jjoin_pc (j_pc th) = true -> (j_par th < j_cur th)%nat).
+Proof. exact join_forest. Qed.
+Print Assumptions C11_join_forest.
+
+(* without the precondition Join can block forever *)
+Theorem C11_self_join_refuted :
+  let c := jrun jfixed (jinit 1 [JJoin 0 0]) [0%nat; 0%nat; 0%nat] in
+  jenabled jfixed c 0 = false /\ jfinished c 0 = false /\ jmutex_blocked c 0 = true.
+Proof. exact self_join_refuted. Qed.
+Print Assumptions C11_self_join_refuted.
+
+Theorem C11_cyclic_join_refuted :
+  let c := jrun jfixed (jinit 2 [JJoin 0 1; JJoin 1 0]) [0%nat; 1%nat; 0%nat; 1%nat] in
+  jenabled jfixed c 0 = false /\ jenabled jfixed c 1 = false /\
+  jfinished c 0 = false /\ jfinished c 1 = false /\ jmutex_blocked c 0 = true /\ jmutex_blocked c 1 = true.
+Proof. exact cyclic_join_refuted. Qed.
+Print Assumptions C11_cyclic_join_refuted.
+
+(* no_stuck on chains, PARTIAL (the mutexes): under the precondition, whenever some Promise.mu is held some thread can
+   take a step, so no operation waits forever for a mutex.  Not covered: the channel waits (callsStopped, pendingDone,
+   joined, resolved, hook.done) on chains; they are covered for a single promise by C11_no_stuck. *)
+Theorem C11_join_no_mutex_deadlock_partial : forall v np ops c, jv_alloc_table v = true -> join_ordered ops ->
+  jreach v np ops c -> forall k t, p_mu (getp c k) = Some t -> exists t', jenabled v c t' = true.
+Proof. exact join_no_mutex_deadlock. Qed.
+Print Assumptions C11_join_no_mutex_deadlock_partial.
+
+(* destination on chains, second half: a delivery that is not to a PipelineCaller was made on the result of the
+   promise at the end of the call's traversal, at the call's path, and that promise's result is final *)
+Theorem C11_join_delivery_destination : forall v np ops c, jreach v np ops c ->
+  forall t th k d, nth_error (jthreads c) t = Some th -> In (JEDeliver t k d) (jevents c) ->
+    d = DCaller \/
+    (d = res_dest (jcur_res (getp c k)) (j_path th) /\ p_caller (getp c k) = false /\
+     (p_result (getp c k) <> None \/ p_signals (getp c k) = [])).
+Proof. exact join_delivery_destination. Qed.
+Print Assumptions C11_join_delivery_destination.
+
+(* joined promises hold nothing: references, clients and signals live at the promise they were joined onto *)
+Theorem C11_join_joined_empty : forall v np ops c, jv_alloc_table v = true -> jreach v np ops c -> forall k,
+  (p_caller (getp c k) = true -> p_next (getp c k) = None) /\
+  (p_next (getp c k) <> None ->
+   p_crefs (getp c k) = 0 /\ p_clients (getp c k) = [] /\ p_signals (getp c k) = []).
+Proof. exact join_joined_empty. Qed.
+Print Assumptions C11_join_joined_empty.
+
+(* proxy clients released, per chain: when every promise other than k has been joined, k's clientsRefs equals the
+   number of promises that have not called ReleaseClients plus the calls still walking to k: the table is given up by
+   the last ReleaseClients of the chain, not before (seeded C11-r2-1) and not later *)
+Theorem C11_join_chain_release : forall v np ops c,
+  jv_alloc_table v = true -> jv_refs_sum v = true -> jreach v np ops c ->
+  forall k, (forall k', k' <> k -> p_next (getp c k') <> None \/ p_crefs (getp c k') = 0) ->
+    p_crefs (getp c k) = pm_unreleased (proms c) + jcount owes (jthreads c).
+Proof. exact join_chain_release. Qed.
+Print Assumptions C11_join_chain_release.
